@@ -67,7 +67,7 @@ class C02(InterpProp):
                 if m['transition'] is not None:
                     t = info['trans'][m['transition']]
                     if t.target and any(isinstance(sc.state_for(a), oracles.OrthogonalState)
-                                        for a in sc.ancestors_for(t.target)) and t.target not in info['cfg0']:
+                                        for a in oracles.tree(sc).ancestors_for(t.target)) and t.target not in info['cfg0']:
                         res.features.add('target-nested-in-region')
             res.features.add('micro%d' % min(len(r['step']['steps']), 6))
             nt = len([m for m in r['step']['steps'] if m['transition'] is not None])
